@@ -242,6 +242,37 @@ def build(run):
         return proved("exhaustive-finite-domain", vcs=n, sample=f"strict total order over {len(reps)} distinct cells (all pairs, all triples); >, <=, >= agree with < where defined")
     run.add("cell_order/strict_total", order_thunk, kind="proof")
 
+    def history_thunk():
+        """Equality, hash and order of product cells are functions of their factors: they must not depend on which cells were created and discarded before
+        (objects built freshly for every comparison and dropped again, so that the interpreter may reuse their memory)."""
+        import gc
+        base = [n_ for n_ in UC._sub_entity_celltypes]
+        combos = [c_ for k_ in (1, 2, 3) for c_ in itertools.product(base, repeat=k_) if sum(UC.Cell(n_).topological_dimension for n_ in c_) <= 3]
+        mk = lambda c_: UC.TensorProductCell(*[UC.Cell(n_) for n_ in c_])     # noqa: E731
+        ref = {c_: mk(c_) for c_ in combos}            # all alive at once: the reference order
+        ref_lt = {(x, y): ref[x] < ref[y] for x in combos for y in combos}
+        ref_hash = {c_: hash(ref[c_]) for c_ in combos}
+        n = 0
+        for fa in combos:
+            for fb in combos:
+                a = mk(fa)
+                hash(a), a == a, a < a
+                del a
+                gc.collect() if n % 97 == 0 else None
+                b = mk(fb)
+                c = mk(fa)
+                n += 1
+                got = (b == c, c == b, b != c, b < c, c < b, hash(b), hash(c))
+                want = (fa == fb, fa == fb, fa != fb, ref_lt[(fb, fa)], ref_lt[(fa, fb)], ref_hash[fb], ref_hash[fa])
+                if got != want:
+                    names = ("b == c", "c == b", "b != c", "b < c", "c < b", "hash(b)", "hash(c)")
+                    bad = [f"{nm} is {g_!r}, expected {w_!r}" for nm, g_, w_ in zip(names, got, want) if g_ != w_]
+                    return violated(f"after creating, hashing and discarding TensorProductCell{fa}: b = TensorProductCell{fb}, c = TensorProductCell{fa}: " + "; ".join(bad),
+                                    replay={"discarded": list(fa), "b": list(fb), "c": list(fa), "differences": bad}, reproduced=True, backend="exec")
+                del b, c
+        return proved("exhaustive-finite-domain", vcs=n, sample=f"{len(combos)}^2 ordered pairs of product cells, each built after a discarded cell: ==, !=, <, hash as in the all-alive reference")
+    run.add("cell_order/independent-of-creation-history", history_thunk, kind="proof")
+
     def ctor_thunk():
         n = 0
         for d in range(5):
